@@ -19,7 +19,7 @@ ASSUMPTIONS = ["aliasing the user creates by handing one mutable object to two u
 
 
 def bounds(tier):
-    leaves = ["list-int", "list-int-cd", "dict-typed", "dict-typed-cd", "list-str-req", "list-any-dflt", "dict-any-dflt", "dict-any-empty-dflt", "dict-typed-empty-dflt", "list-any-empty-dflt", "list-int-empty-dflt", "int09", "challenge-dflt", "any", "str-norm", "dict-of-lists", "list-of-lists", "file-in-homedir", "list-anyfield-dflt", "list-anyfield-empty-dflt"]
+    leaves = ["list-int", "list-int-cd", "dict-typed", "dict-typed-cd", "list-str-req", "list-any-dflt", "dict-any-dflt", "dict-any-empty-dflt", "dict-typed-empty-dflt", "list-any-empty-dflt", "list-int-empty-dflt", "int09", "challenge-dflt", "any", "str-norm", "dict-of-lists", "list-of-lists", "file-in-homedir", "list-anyfield-dflt", "list-anyfield-empty-dflt", "secure-aes"]
     if tier == "thorough":
         leaves = list(W.catalogue())
     return {"shapes": ["flat", "nested", "cfglist", "reuse", "dynamic"], "leaves": leaves, "depth": 3 if tier == "thorough" else 2}
